@@ -9,6 +9,6 @@ CONSTANT Feed = FALSE
 CONSTANT Lean = TRUE
 CONSTANT GoodChains <- MCGood
 CONSTANT BadChains <- MCBad
-SPECIFICATION Spec
+SPECIFICATION SimSpec
 CHECK_DEADLOCK FALSE
 INVARIANT ExportEnd
